@@ -262,7 +262,13 @@ namespace bluetoe {
             };
 
             std::size_t     next_;
+#if defined BLUETOE_VERIF && defined BLUETOE_VERIF_NQ_BYTE
+            // verification seam: a byte type that lets a deterministic scheduler interleave
+            // between the load and the store of every read-modify-write of the queue
+            BLUETOE_VERIF_NQ_BYTE queue_[ ( Size * bits_per_characteristc + 7 ) / 8 ];
+#else
             std::uint8_t    queue_[ ( Size * bits_per_characteristc + 7 ) / 8 ];
+#endif
         };
 
         /**
@@ -327,7 +333,11 @@ namespace bluetoe {
                 indication_bit   = 0x02
             };
 
+#if defined BLUETOE_VERIF && defined BLUETOE_VERIF_NQ_BYTE
+            BLUETOE_VERIF_NQ_BYTE state_;
+#else
             std::uint8_t state_;
+#endif
         };
 
         template < int C >
